@@ -155,6 +155,68 @@ def retry_after_recursion_error(rec):
                 break
 
 
+def retry_clone_from_root(rec):
+    """clone_from_root via a node in the shallow part of a tree whose other part is too deep for the default
+    recursion limit: the first attempt runs out of stack (after the node's own copy may already have been
+    made), the caller raises the limit and asks the SAME node object again.  The answer is decided with loops
+    (position of the result, size of the tree around it); the monitors are bypassed."""
+    import sys
+    from mathy_core.expressions import MathExpression
+
+    f = getattr(MathExpression.clone_from_root, "__vmon_original__", MathExpression.clone_from_root)
+    old = sys.getrecursionlimit()
+
+    def count(r):
+        n, stack = 0, [r]
+        while stack:
+            x = stack.pop()
+            if x is not None:
+                n += 1
+                stack.append(x.left)
+                stack.append(x.right)
+        return n
+
+    def path(n):
+        p = []
+        while n.parent is not None:
+            p.append("L" if n.parent.left is n else "R")
+            n = n.parent
+        return p[::-1], n
+
+    prod = " * ".join(["2"] * 600)       # products nest to the right, sums to the left
+    total_sum = " + ".join(f"{(i % 7) + 1}x" for i in range(650))
+    cases = [("x + " + prod, lambda t: t.left), ("(a + b) * (c - " + prod + ")", lambda t: t.left.right), (prod + " = y + 1", lambda t: t.right.left),
+             ("4y^2 - " + prod, lambda t: t.left.right), ("z + (" + total_sum + ")", lambda t: t.left), ("(" + total_sum + ") * (p + q)", lambda t: t.right.left)]
+    for text, pick in cases:
+        tree = D.parse(text)
+        node = pick(tree)
+        want_path, _ = path(node)
+        total = count(tree)
+        outcomes = []
+        for limit in (1000, 1000, max(old, 30000)):
+            sys.setrecursionlimit(limit)
+            try:
+                res = f(node)
+                outcomes.append("ok")
+            except RecursionError:
+                res = None
+                outcomes.append("RecursionError")
+            finally:
+                sys.setrecursionlimit(old)
+        rec.ev()
+        if outcomes[0] == "RecursionError" and res is not None:
+            rec.arm("clone_from_root:retry-with-more-stack")
+        if res is None:
+            rec.skip("clone: clone_from_root beyond the interpreter's stack even with the limit raised")
+            continue
+        got_path, top = path(res)
+        n2 = count(top)
+        if got_path != want_path or n2 != total or top is tree or res is node:
+            rec.violation("C13", "clone_from_root/position", "clone_from_root does not return the copy of the node it was called on",
+                          {"retry": True, "summary": f"'{text[:28]}...' ({total} nodes): clone_from_root via the node at {''.join(want_path) or 'root'} under the default recursion limit: "
+                           f"{outcomes[:2]}; asked again with the limit raised it returned a node at {''.join(got_path) or 'root'} in a tree of {n2} nodes"})
+
+
 def deep_clone_from_root(rec):
     """a sum of several thousand terms is a tree several thousand levels deep (the parser builds it
     with a loop); with the recursion limit raised accordingly, clone_from_root via its deepest node
@@ -304,6 +366,7 @@ def run(rec, cfg):
         retry_after_recursion_error(rec)
     if cfg.shard == 4 % cfg.nshards:
         deep_clone_from_root(rec)
+        retry_clone_from_root(rec)
     if cfg.shard == 0 or True:
         for t in constructed(rng):
             rec.arm("start:constructed")
@@ -358,6 +421,9 @@ def run(rec, cfg):
 
 
 def replay(rec, cfg, w):
+    if w.get("retry"):
+        retry_clone_from_root(rec)
+        return
     if w.get("deep"):
         deep_clone_from_root(rec)
         return
